@@ -98,15 +98,96 @@ func (e *Exec) implEnv(st *State, fr *Frame, impl *Contract, pos bool) *Env {
 	if e.pre == nil {
 		env.old = st
 	}
-	for i, n := range impl.ParamNames {
-		if i < len(e.fn.Params) {
-			env.vars[n] = fr.Vals[e.fn.Params[i]]
-			if v, ok := e.params[e.fn.Params[i].Name()]; ok {
+	pi := 0
+	for _, n := range impl.ParamNames {
+		if be, ok := e.contract.ImplBind[n]; ok {
+			// ghost-bound parameter: stands for a captured variable of this closure
+			benv := &Env{e: e, st: st, old: env.old, fr: fr, vars: map[string]Value{}, pos: true, pkgName: e.contract.Pkg}
+			env.vars[n] = benv.eval(be)
+			continue
+		}
+		if pi < len(e.fn.Params) {
+			env.vars[n] = fr.Vals[e.fn.Params[pi]]
+			if v, ok := e.params[e.fn.Params[pi].Name()]; ok {
 				env.vars[n] = v
 			}
 		}
+		pi++
 	}
 	return env
+}
+
+// checkResultContracts: a function-valued result declared `resultcontract r
+// key(args)` must be nil, a closure whose contract implements key with its
+// ghost-bound parameters standing for args, or a value obtained from a callee
+// with the same declaration.
+func (e *Exec) checkResultContracts(st *State, fr *Frame, ct *Contract, env *Env, res Value) {
+	for _, rc := range ct.ResultContracts {
+		idx := resultIndexOf(rc.Result, e.resultNames())
+		var v Value
+		if vt, ok := res.(VTuple); ok {
+			if idx >= 0 && idx < len(vt.E) {
+				v = vt.E[idx]
+			}
+		} else if idx == 0 {
+			v = res
+		}
+		vf, ok := v.(VFunc)
+		name := fmt.Sprintf("resultcontract(%s %s)", rc.Result, rc.Key)
+		where := fmt.Sprintf("%s:%d", rc.File, rc.Line)
+		if !ok {
+			e.emit(st, name, "ensures", nil, False, where)
+			continue
+		}
+		if vf.Nil.Const && vf.Nil.V == 1 {
+			continue
+		}
+		var want []Value
+		for _, a := range rc.Args {
+			want = append(want, env.eval(a))
+		}
+		var have []Value
+		switch {
+		case vf.Fn != nil:
+			cct := e.prog.contracts.Funcs[fnKey(vf.Fn)]
+			impl := e.prog.contracts.Funcs[rc.Key]
+			if cct == nil || impl == nil || cct.Implements != rc.Key {
+				e.emit(st, name+"/implements", "ensures", nil, False, where)
+				continue
+			}
+			pf := &Frame{Fn: vf.Fn, Vals: map[ssa.Value]Value{}}
+			for j, fv := range vf.Fn.FreeVars {
+				if j < len(vf.Bindings) {
+					pf.Vals[fv] = vf.Bindings[j]
+				}
+			}
+			benv := &Env{e: e, st: st, old: st, fr: pf, vars: map[string]Value{}, pos: true, pkgName: cct.Pkg}
+			for _, n := range impl.ParamNames {
+				if be, ok := cct.ImplBind[n]; ok {
+					have = append(have, benv.eval(be))
+				}
+			}
+			// creation-time invariants of the closure over its captured variables
+			for k, ci := range cct.CbInv {
+				e.emit(st, fmt.Sprintf("%s/cbinv-init(%s)#%d", name, fnKey(vf.Fn), k+1), "invariant", ci.Labels, benv.evalBool(ci.E), where)
+			}
+			e.byContr[fnKey(vf.Fn)+" (closure invariant at creation)"] = true
+		case vf.Contract == rc.Key:
+			have = vf.GhostArgs
+		default:
+			e.emit(st, name+"/implements", "ensures", nil, False, where)
+			continue
+		}
+		g := True
+		if len(have) != len(want) {
+			g = False
+		} else {
+			for i := range want {
+				g = And(g, e.valEq(have[i], want[i]))
+			}
+		}
+		e.emit(st, name+"/binding", "ensures", nil, Or(vf.Nil, g), where)
+	}
 }
 
 func (e *Exec) resultNames() []string {
@@ -147,7 +228,9 @@ func (e *Exec) finishPath(st *State, fr *Frame, res Value, in *ssa.Return) {
 		for i, en := range impl.Ensures {
 			e.emit(st, fmt.Sprintf("implements(%s)/ensures#%d", impl.Key, i+1), "ensures", en.Labels, ienv.evalBool(en.E), fmt.Sprintf("%s:%d", en.File, en.Line))
 		}
+		e.checkResultContracts(st, fr, impl, ienv, res)
 	}
+	e.checkResultContracts(st, fr, e.contract, env, res)
 	for i, ci := range e.contract.CbInv {
 		name := fmt.Sprintf("cbinv-preserved#%d", i+1)
 		if len(ci.Labels) > 0 {
@@ -285,6 +368,9 @@ func (e *Exec) checkFrame(st *State, fr *Frame, env *Env) {
 			l := e.allLocs[w]
 			if l == nil || !l.Obj.Lazy {
 				continue // local allocation
+			}
+			if strings.Contains(l.Obj.Name, ".result") && strings.Contains(l.Obj.Name, "!c") {
+				continue // object returned by a callee during this call: not part of the pre-state
 			}
 			if strings.HasPrefix(l.Obj.Name, "G:") && false {
 				continue
@@ -486,4 +572,63 @@ func valueEq(a, b Value) (T, bool) {
 		}
 	}
 	return False, false
+}
+
+
+// valEq is structural equality of two contract-level values (ghost argument
+// conformance): scalars by value, structs field-wise, references by identity.
+func (e *Exec) valEq(a, b Value) T {
+	switch x := a.(type) {
+	case VInt:
+		if y, ok := b.(VInt); ok {
+			if x.Untyped && !y.Untyped {
+				x = coerceUntyped(x, y.T.Sort.W, y.Signed)
+			} else if y.Untyped && !x.Untyped {
+				y = coerceUntyped(y, x.T.Sort.W, x.Signed)
+			}
+			if x.T.Sort.W == y.T.Sort.W {
+				return Eq(x.T, y.T)
+			}
+		}
+		return False
+	case VBool:
+		if y, ok := b.(VBool); ok {
+			return Eq(x.T, y.T)
+		}
+		return False
+	case VOpaque:
+		if y, ok := b.(VOpaque); ok {
+			return Eq(x.T, y.T)
+		}
+		return False
+	case VStr:
+		if y, ok := b.(VStr); ok {
+			return Eq(x.T, y.T)
+		}
+		return False
+	case VErr:
+		if y, ok := b.(VErr); ok {
+			return Eq(x.T, y.T)
+		}
+		return False
+	case VStruct:
+		y, ok := b.(VStruct)
+		if !ok || !types.Identical(x.Typ, y.Typ) {
+			return False
+		}
+		g := True
+		for i := 0; i < structOf(x.Typ).NumFields(); i++ {
+			g = And(g, e.valEq(e.fieldOf(x, i), e.fieldOf(y, i)))
+		}
+		return g
+	case VSMap:
+		if y, ok := b.(VSMap); ok {
+			if x.Reg == y.Reg {
+				return Eq(x.Nil, y.Nil)
+			}
+			return And(x.Nil, y.Nil)
+		}
+		return False
+	}
+	return e.refEq(a, b)
 }
